@@ -4,5 +4,7 @@ set -e
 cd "$(dirname "$0")"
 export CARGO_NET_OFFLINE=true
 (cd vx && cargo build --offline 2>&1 | tail -3)
+# R-MACRO-EXPAND helper (unit content_hash): pre-build it (and its dependencies) against the repo's derive-macro source
+if [ -x tools/derive_expand/run.sh ]; then tools/derive_expand/run.sh "${VERIF_REPO:-/repo}" lib/src/op_store.rs RemoteRefState > /dev/null && echo "derive_expand ok"; fi
 mkdir -p build evidence replay
 echo "setup ok"
